@@ -75,6 +75,61 @@ def srcWfB (P : Prog) : Bool :=
         | _ => true)
     | none => true)
 
+/-- ranks for `Stratified`: relax `rank(referrer) > rank(referent)` until nothing changes (at most `size` rounds;
+    `none` = still changing, i.e. a reference cycle) -/
+def stratRanks (P : Prog) : Option (Array Nat × Array Nat) :=
+  let nT := P.types.size
+  let nU := P.tuples.size
+  let step (r : Array Nat × Array Nat) : Array Nat × Array Nat :=
+    let rT := (List.range nT).foldl (fun (acc : Array Nat) (t : Nat) =>
+      match P.types[t]? with
+      | some (Ty.tuple u) => acc.setIfInBounds t (Nat.max (acc.getD t 0) ((r.2.getD u 0) + 1))
+      | some τ => acc.setIfInBounds t ((tyChildren τ).foldl (fun m x => Nat.max m ((acc.getD x 0) + 1)) (acc.getD t 0))
+      | none => acc) r.1
+    let rU := (List.range nU).foldl (fun (acc : Array Nat) (u : Nat) =>
+      match P.tuples[u]? with
+      | some T => acc.setIfInBounds u (T.fields.foldl (fun m p => Nat.max m ((rT.getD p.2 0) + 1)) (acc.getD u 0))
+      | none => acc) r.2
+    (rT, rU)
+  let rec go : Nat → Array Nat × Array Nat → Option (Array Nat × Array Nat)
+    | 0, _ => none
+    | n + 1, r =>
+      let r' := step r
+      if r' == r then some r else go n r'
+  go (nT + nU + 2) (Array.replicate nT 0, Array.replicate nU 0)
+
+/-- `Stratified P rT rU` for the computed ranks, decided clause by clause -/
+def stratifiedB (P : Prog) : Bool :=
+  match stratRanks P with
+  | none => false
+  | some (rT, rU) =>
+    (List.range P.types.size).all (fun (t : Nat) =>
+      match P.types[t]? with
+      | some (Ty.tuple u) => decide (rU.getD u 0 < rT.getD t 0)
+      | some τ => (tyChildren τ).all (fun x => decide (rT.getD x 0 < rT.getD t 0))
+      | none => true) &&
+    (List.range P.tuples.size).all (fun (u : Nat) =>
+      match P.tuples[u]? with
+      | some T => T.fields.all (fun p => decide (rT.getD p.2 0 < rU.getD u 0))
+      | none => true)
+
+/-- the remaining hypotheses of `C10.merge_isRenaming` about (environment `E`, source `P`, merge output) -/
+def mergeHypotheses (E P : Prog) (out : MergeOut) : String :=
+  let dedup := decide (P.consts.toList.Nodup) && decide (P.fns.toList.Nodup) && decide (P.types.toList.Nodup) &&
+    decide (P.tuples.toList.Nodup) && decide ((P.builtins.toList.map (·.name)).Nodup)
+  let fix := (List.range 2).all (fun (i : Nat) =>
+    match P.tuples[i]?, E.tuples[i]? with
+    | some T, some T' => T == T' && T.fields.isEmpty
+    | _, _ => false)
+  let outNodup := decide (out.prog.tuples.toList.Nodup)
+  let btypes := out.ren.builtin.all (fun (p : Nat × Nat) =>
+    match P.builtins[p.1]?, out.prog.builtins[p.2]? with
+    | some B, some B' => out.ren.type.get B.paramType == some B'.paramType &&
+        out.ren.type.get B.resultType == some B'.resultType
+    | _, _ => true)
+  let strat := stratifiedB P
+  s!"dedup={dedup} nil-ok={fix} out-tuples-nodup={outNodup} builtin-types={btypes} stratified={strat}"
+
 def c10Step (st : C10State) (req : List Sx) : C10State × String :=
   match req with
   | [.list (.atom "prog" :: .atom slot :: parts)] =>
@@ -110,7 +165,7 @@ def c10Step (st : C10State) (req : List Sx) : C10State × String :=
           let v := validateB { out.ren with resource := resourceMap P R } P R e out.entry
           let why := if v then "" else s!" failing={(firstFailing (checks { out.ren with resource := resourceMap P R } P R e out.entry)).getD "?"}"
           let kd := distinctB (out.ren.type.map (·.1)) && distinctB (out.ren.tuple.map (·.1))
-          (st, s!"equal entry={out.entry} validate={v}{why} keys-distinct={kd} src-wf={srcWfB P}")
+          (st, s!"equal entry={out.entry} validate={v}{why} keys-distinct={kd} src-wf={srcWfB P} {mergeHypotheses E P out}")
     | _, _, _, _ => (st, "bad-request")
   | [.list [.atom "shake", ea]] =>
     -- `treeShake A e` compared with slot B (the real `tree_shake(A, e)`), field by field, and the
